@@ -198,6 +198,33 @@ impl Check for Broadcast {
                 want
             );
         }
+        // the same operation with the left operand written as a literal directly against the
+        // operator (`3.==r`, `2<r`): spaces around an operator are optional layout
+        if let MV::Num(F(x)) = &c.l
+            && x.fract() == 0.0
+            && *x >= 0.0
+            && *x < 1e15
+            && !x.is_sign_negative()
+            && !matches!(c.op, Op::Ne | Op::AndWord | Op::OrWord)
+        {
+            let compact = format!("{}{}r", *x as u64, c.op.text());
+            let got_c = sess.probe(&compact);
+            let ok_c = match (&want, &got_c) {
+                (Expect::Value(w), Ok(g)) | (Expect::ValueOrError(w), Ok(g)) => w.same_nanclass(g),
+                (Expect::Error, Err(_)) | (Expect::ValueOrError(_), Err(_)) => true,
+                _ => false,
+            };
+            if !ok_c {
+                fail!(
+                    format!("{}:literal-left-compact:{}:{}", c.op.text(), tclass(&c.r), if got_c.is_ok() { "wrong-value-or-missing-error" } else { "error-instead-of-value" }),
+                    "`{}` with r = {} evaluated to {:?}; the per-element model expects {:?}",
+                    compact,
+                    c.r.to_source(false),
+                    got_c,
+                    want
+                );
+            }
+        }
         // the same heap object on both sides (`l OP l`): the per-element law does not care
         let got_alias = sess.probe(&format!("l {} l", c.op.text()));
         let want_alias = model(c.op, &c.l, &c.l);
